@@ -130,6 +130,17 @@ func runC08(w *h.W, batch int) {
 		n = r.Range(1500, 3000)
 	}
 	corp := gen.MakeCorpus(r, gen.CorpusOpt{N: n, Vocab: r.Range(2, 30), MIDSpread: r.LogInt(2, 1000), MaxToks: 2, Tag: fmt.Sprintf("b%d", batch)})
+	if batch%4 == 1 {
+		// a token dictionary of several 16 KiB blocks: blocks are then flushed by the size threshold, not only at the end of a field
+		for i, d := range corp.Docs {
+			d.Toks = append(d.Toks, model.Tok{F: "k2", V: fmt.Sprintf("unique-long-token-value-%06d-%s", i, strings.Repeat("x", r.Range(10, 60)))})
+		}
+		for len(corp.Docs) < 700 {
+			i := len(corp.Docs)
+			corp.Docs = append(corp.Docs, &model.Doc{ID: model.ID{MID: gen.T0 + uint64(r.Intn(1000)), RID: r.U64()}, Body: []byte(fmt.Sprintf(`{"fill":%d}`, i)),
+				Toks: []model.Tok{{F: "k2", V: fmt.Sprintf("unique-long-token-value-%06d-%s", i, strings.Repeat("y", r.Range(10, 60)))}, {F: "k1", V: "fill"}}})
+		}
+	}
 	nb := r.Range(1, 4)
 	var known []int
 	var steps []phaseStep
